@@ -68,6 +68,7 @@ type Case struct {
 	Seq      string `json:"seq"`     // history case: kind of the other key that used the same key id before
 	Conc     int    `json:"conc"`    // live case: goroutines sharing one instance (0: not a live case)
 	Keep     int    `json:"keep"`    // live case: results of the previous Keep calls are retained and re-checked
+	Dst      string `json:"dst"`     // aescbcaead: calling convention for the destination ("" = not such a case)
 
 	kid string // key id put on every jwk.Key of this execution ("" = none)
 }
@@ -77,6 +78,7 @@ type call struct {
 	W, I    int    // live cases: goroutine and iteration
 	Same    string // live cases: result identical to the one the call gave alone
 	Kept    string // live cases: retained earlier results unchanged
+	Again   string // live cases: repeated with the very same argument slices, same result
 	Idx     int
 	Xor     int
 	Outcome string
@@ -308,6 +310,8 @@ func execCase(cs Case, seed int64, pos positions) (r run) {
 		}
 	}()
 	switch {
+	case cs.Dst != "":
+		execDst(cs, seed, one)
 	case cs.Mut == "pad":
 		execPad(cs, seed, one)
 	case cs.Fn == "aeskw.Wrap" || cs.Fn == "aeskw.Unwrap":
@@ -410,6 +414,90 @@ func prior(cs Case, kid string, seed int64) {
 			}
 		}
 	})
+}
+
+// execDst: one Seal/Open of aescbcaead with the destination convention cs.Dst.
+// The bytes appended to dst must be those of dst = nil (= the reference's) and
+// the prefix must be preserved.
+func execDst(cs Case, seed int64, one func(call)) {
+	p, _ := cref.CBCHMACByName(cs.Alg)
+	key := cref.Oct(cs.KeyBits / 8)
+	aead, err := aeadCtor(cs.Alg)(cp(key))
+	if err != nil {
+		panic(err)
+	}
+	pt, aad, nonce := msgBytes(seed, cs.InLen), cref.Det(saltAad, cs.AadLen), cref.Det(saltNonce, 16)
+	ct, tag, rerr := p.Seal(key, nonce, pt, aad)
+	if rerr != nil {
+		panic(rerr)
+	}
+	sealed := append(cp(ct), tag...)
+	seal := cs.Fn == "aescbcaead.Seal"
+	in, want := sealed, pt // Open
+	if seal {
+		in, want = pt, sealed
+	}
+	need := len(want)
+	if !seal {
+		need = len(ct) // Open may use room for the padded plaintext
+	}
+	prefix := cref.Det(13, 5)
+	var dst, src []byte
+	src = cp(in)
+	switch cs.Dst {
+	case "nil":
+	case "empty":
+		dst = []byte{}
+	case "room":
+		dst = make([]byte, 0, need+7)
+	case "tight":
+		dst = make([]byte, 0, need/2)
+	case "prefix":
+		dst = cp(prefix)
+	case "prefixroom":
+		dst = append(make([]byte, 0, len(prefix)+need+7), prefix...)
+	case "overlap":
+		dst = src[:0]
+	case "overlaproom":
+		src = append(make([]byte, 0, len(in)+need+40), in...)
+		dst = src[:0]
+	default:
+		panic("dst kind " + cs.Dst)
+	}
+	havePrefix := cs.Dst == "prefix" || cs.Dst == "prefixroom"
+	var out []byte
+	var cerr error
+	pk, pm := guard(func() {
+		if seal {
+			out = aead.Seal(dst, cp(nonce), src, cp(aad))
+		} else {
+			out, cerr = aead.Open(dst, cp(nonce), src, cp(aad))
+		}
+	})
+	if pk {
+		one(call{Outcome: "panic", Rt: "na", Ref: "na", Noout: "na", Detail: pm})
+		return
+	}
+	c := call{Outcome: classify(cerr), Rt: "na", Ref: "na", Noout: "na"}
+	if cerr != nil {
+		c.Noout, c.Detail = yn(len(out) == 0), cerr.Error()
+		one(c)
+		return
+	}
+	exp := want
+	if havePrefix {
+		exp = append(cp(prefix), want...)
+	}
+	c.Ref = yn(bytes.Equal(out, exp))
+	if seal { // and what was sealed this way opens (through a plain call)
+		body := out
+		if havePrefix {
+			body = out[len(prefix):]
+		}
+		back, oerr := aead.Open(nil, cp(nonce), cp(body), cp(aad))
+		c.Rt = yn(oerr == nil && bytes.Equal(back, pt))
+	}
+	one(c)
 }
 
 // padBuf builds the plaintext of a padding case: inLen bytes, none of them
@@ -964,6 +1052,9 @@ func resetOf(cs Case, compLen int, full bool) tv.M {
 	if cs.Conc > 0 {
 		m["conc"], m["keep"] = cs.Conc, cs.Keep
 	}
+	if cs.Dst != "" {
+		m["dst"] = cs.Dst
+	}
 	return m
 }
 
@@ -986,7 +1077,7 @@ func record(b *tv.Batch, cs Case, r run, full bool) int {
 			m["phase"] = c.Phase
 		}
 		if cs.Conc > 0 {
-			m["w"], m["i"], m["same"], m["kept"] = c.W, c.I, c.Same, c.Kept
+			m["w"], m["i"], m["same"], m["kept"], m["again"] = c.W, c.I, c.Same, c.Kept, c.Again
 		}
 		b.Ev("call", m)
 	}
@@ -1021,6 +1112,8 @@ func findingKey(cs Case, why string) string {
 		return "history-dependent:" + cs.Fn + ":" + cs.Alg + ":same-kid"
 	case "concurrency-dependent":
 		return "concurrency-dependent:" + cs.Fn + ":" + cs.Fam + ":shared-instance"
+	case "repeat-dependent":
+		return "history-dependent:" + cs.Fn + ":" + cs.Fam + ":same-arguments-again"
 	case "result-overwritten":
 		return "result-overwritten:" + cs.Fn + ":" + cs.Fam
 	case "malformed-padding-accepted":
@@ -1038,6 +1131,9 @@ func findingKey(cs Case, why string) string {
 			via = "UnpadPKCS7"
 		}
 		return fmt.Sprintf("malformed-padding-accepted:%s:v=%s/len=%d", via, vc, cs.InLen)
+	}
+	if cs.Dst != "" {
+		return strings.ReplaceAll(why, " ", "-") + ":" + cs.Fn + ":dst=" + cs.Dst
 	}
 	fam := cs.Fam
 	if cs.Fn == "padding.UnpadPKCS7" {
@@ -1073,7 +1169,7 @@ func findingKey(cs Case, why string) string {
 }
 
 func nontrivial(cs Case) bool {
-	if cs.Mut != "none" || cs.Seq != "" || cs.Conc > 0 || cs.Fam == "none" || cs.KeyKind != cs.GKeyKind || cs.KeyBits != cs.GKeyBits || cs.NonceLen != cs.GNonce {
+	if cs.Mut != "none" || cs.Seq != "" || cs.Conc > 0 || cs.Dst != "" || cs.Fam == "none" || cs.KeyKind != cs.GKeyKind || cs.KeyBits != cs.GKeyBits || cs.NonceLen != cs.GNonce {
 		return true
 	}
 	if cs.Dir == "dec" && cs.TagLen != cs.GTag {
@@ -1137,7 +1233,7 @@ func TestCheck(t *testing.T) {
 			Timeout: ev.Pick(4*time.Minute, 20*time.Minute), Args: []string{"-noGenerateSpecTE"}, Keep: []string{"cases.ndjson"}})
 	}()
 	// non-vacuity: the model of the code as found must be rejected by the monitor, one defect at a time
-	defects := []string{"nopad", "ecdsa", "kwlen", "openlen", "padbound", "kidcache", "sharedmac", "pool"}
+	defects := []string{"nopad", "ecdsa", "kwlen", "openlen", "padbound", "kidcache", "sharedmac", "pool", "kwinplace", "dstgrow"}
 	if !thorough {
 		defects = nil // six more TLC runs: thorough tier only (the quick tier stays within its budget on a loaded machine)
 	}
@@ -1216,7 +1312,7 @@ func TestCheck(t *testing.T) {
 			nCalls += int64(len(runs[i].calls))
 		}
 		if nontrivial(cs) {
-			e.Nontrivial(fmt.Sprintf("%s|%s|%s|%d|%d|%d|%d|%d|%s|%d|%s|%s", cs.Fn, cs.Alg, cs.KeyKind, cs.KeyBits, cs.NonceLen, cs.TagLen, cs.InLen, cs.AadLen, cs.Mut, cs.PadV, cs.PadTail, fmt.Sprint(cs.Seq, cs.Conc, cs.Keep)))
+			e.Nontrivial(fmt.Sprintf("%s|%s|%s|%d|%d|%d|%d|%d|%s|%d|%s|%s", cs.Fn, cs.Alg, cs.KeyKind, cs.KeyBits, cs.NonceLen, cs.TagLen, cs.InLen, cs.AadLen, cs.Mut, cs.PadV, cs.PadTail, fmt.Sprint(cs.Seq, cs.Conc, cs.Keep, cs.Dst)))
 		}
 	}
 	// the lists the package publishes
@@ -1230,7 +1326,7 @@ func TestCheck(t *testing.T) {
 	fmt.Printf("executed %d cases, %d real calls in %s; %d trace lines\n", len(cases), nCalls, time.Since(t0).Round(time.Millisecond), b.Lines())
 	e.Set("evaluations", nCalls)
 	e.Set("outcome_classes_observed", outcomes)
-	e.Set("rule", "case = (entry point, algorithm name, key kind, key bits, nonce length, tag length, message length, AAD length, mutation), enumerated by TLC from spec/CryptoDispatch (CryptoDispatch!Groups/GroupCases: valid point x message lengths x AAD lengths; key-size, key-kind, nonce-length, tag-length sweeps; pairs of faults; unsupported/foreign names; every deformation of a valid input, byte flips at EVERY byte position of the component; PKCS#7 tails: message of 1..4 blocks x last byte value v x tail full/lastonly/broken through UnpadPKCS7 and every padded-CBC decryption; history: signature / asymmetric-encryption calls with keys carrying a key id, alone and after calls with another rsa/ec/okp key under the same key id; live: conc goroutines on ONE shared cipher.AEAD / cipher.Block / jwk.Key making 40-100 calls each with own messages and nonces, retaining the slices returned by the previous keep calls - every result equal to the one the call gives alone and to the reference, retained results unchanged after later successful and failing calls); each case executed once on the real package (flip cases: once per byte position and xor value), judged by TLC: outcome in Allowed(case), decrypt(encrypt)=id, agreement with the reference, no output on error. non-trivial = some fault or mutation present, or a message length with len%16 in {0,1,15} or > 64; distinct by the case tuple")
+	e.Set("rule", "case = (entry point, algorithm name, key kind, key bits, nonce length, tag length, message length, AAD length, mutation), enumerated by TLC from spec/CryptoDispatch (CryptoDispatch!Groups/GroupCases: valid point x message lengths x AAD lengths; key-size, key-kind, nonce-length, tag-length sweeps; pairs of faults; unsupported/foreign names; every deformation of a valid input, byte flips at EVERY byte position of the component; PKCS#7 tails: message of 1..4 blocks x last byte value v x tail full/lastonly/broken through UnpadPKCS7 and every padded-CBC decryption; history: signature / asymmetric-encryption calls with keys carrying a key id, alone and after calls with another rsa/ec/okp key under the same key id; live: conc goroutines on ONE shared cipher.AEAD / cipher.Block / jwk.Key making 40-100 calls each with own messages and nonces, retaining the slices returned by the previous keep calls - every result equal to the one the call gives alone and to the reference, retained results unchanged after later successful and failing calls, every call repeated 0-2 more times with the very same argument slices; dst: the cipher.AEAD destination conventions nil/empty/room/tight/prefix/prefixroom/overlap/overlaproom for aescbcaead Seal and Open - same appended bytes as dst=nil, prefix preserved); each case executed once on the real package (flip cases: once per byte position and xor value), judged by TLC: outcome in Allowed(case), decrypt(encrypt)=id, agreement with the reference, no output on error. non-trivial = some fault or mutation present, or a message length with len%16 in {0,1,15} or > 64; distinct by the case tuple")
 	for _, i := range []int{0, len(cases) / 5, 2 * len(cases) / 5, 3 * len(cases) / 5, 4 * len(cases) / 5, len(cases) - 1} {
 		tr := b.TraceStrings(i)
 		if len(tr) > 6 {
